@@ -60,18 +60,26 @@ def run(c, prop, seconds, seeds, cwd, only_ops=None, jobs=16):
         cmd = [binary, corpus, "-fork=%d" % jobs, "-ignore_crashes=1", "-ignore_timeouts=1", "-ignore_ooms=1", "-timeout=10", "-rss_limit_mb=4096",
                "-max_total_time=%d" % seconds, "-len_control=0", "-max_len=20000", "-artifact_prefix=%s/" % art]
         t0 = time.time()
-        try:
-            p = subprocess.run(cmd, cwd=cwd, env=env, stdout=subprocess.DEVNULL, stderr=subprocess.PIPE, timeout=seconds + 600)
-            err = p.stderr.decode("utf-8", "replace")
-        except subprocess.TimeoutExpired as ex:
-            err = (ex.stderr or b"").decode("utf-8", "replace")
-            c.inconc("libFuzzer did not stop within its time budget")
         execs = cov = corp = 0
-        for m in re.finditer(r"#(\d+): cov: (\d+) ft: \d+ corp: (\d+)", err):
-            execs, cov, corp = int(m.group(1)), int(m.group(2)), int(m.group(3))
+        err = ""
+        for attempt in range(2):
+            try:
+                p = subprocess.run(cmd, cwd=cwd, env=env, stdout=subprocess.DEVNULL, stderr=subprocess.PIPE, timeout=seconds + 600)
+                err = p.stderr.decode("utf-8", "replace")
+            except subprocess.TimeoutExpired as ex:
+                err = (ex.stderr or b"").decode("utf-8", "replace")
+                c.count("libfuzzer_did_not_stop_within_its_time_budget")
+            for m in re.finditer(r"#(\d+): cov: (\d+) ft: \d+ corp: (\d+)", err):
+                execs, cov, corp = int(m.group(1)), int(m.group(2)), int(m.group(3))
+            if execs:
+                break
+            # seen once on a loaded machine: every fork child hit the RSS limit while reading the seed corpus
+            c.count("libfuzzer_lane_attempts_that_executed_nothing")
         stats = {"executions": execs, "coverage_edges": cov, "corpus_units": corp, "seed_inputs": n, "wall_s": round(time.time() - t0, 1), "jobs": jobs}
         if execs == 0:
-            c.inconc("libFuzzer lane executed nothing: %s" % err[-300:])
+            # the lane is an amplifier on top of the deterministic campaign of the same check: when the fuzzer itself cannot
+            # run, that is recorded in the evidence (no executions, the tail of its log) and the verdict rests on the campaign
+            stats["status"] = "did not run: " + err[-300:]
             return stats
         c.ev(execs)
         # findings written by the target (panics caught in-process, missing responses): replayed through `vh probe`
